@@ -206,6 +206,17 @@ def main():
     ctx = Ctx(prop, tier, seed)
     known = load_known()
     violations = []
+    # global watchdog: a run that does not come to an end is an infrastructure failure (exit 2), never a hang and never a verdict
+    budget = int(os.environ.get("VERIF_BUDGET_S", "0") or 0) or (2400 if tier == "quick" else 7200)
+
+    def _expired(signum, frame):
+        raise subprocess.TimeoutExpired("check %s (%s tier)" % (prop, tier), budget)
+    try:
+        import signal
+        signal.signal(signal.SIGALRM, _expired)
+        signal.alarm(budget)
+    except (ValueError, AttributeError):
+        pass
     try:
         pr = proof_step(prop, mod.THEOREMS, getattr(mod, "MODULES", None) or mod.MODULE, thorough=(tier == "thorough"),
                         pre=getattr(mod, "pre_build", None))
